@@ -30,7 +30,18 @@ class Check(RuntimeCheck):
         # "a response configured without Clone is single-use" also for owned leaves inside composite return kinds:
         # the compiled single-use cases of C17's harness, judged against the proved Output model
         from .c17 import Check as C17
-        C17().explore(rep, only_paths=['once'], merge=True, prop=self.prop)
+        C17().explore(rep, only_paths=None, merge=True, prop=self.prop)      # every configuration path: single-use and repeatable responses of composite return types
+        # a repeatable response stays repeatable after its value's Clone panicked once (the k-th match still gets its response)
+        import os, subprocess
+        from .. import engine
+        ok3, _ = engine.build_harness(['crashpoints'])
+        if ok3:
+            exe = os.path.join(engine.HARNESS, 'target', 'debug', 'crashpoints')
+            for topo in ('clone-outside', 'clone-only'):
+                pc = subprocess.run([exe, 'clone-return', topo], capture_output=True, text=True, timeout=120)
+                if pc.returncode != 0 or ' ok ' not in pc.stdout:
+                    rp = engine.write_replay(self.prop, 'spec', f"{exe} clone-return {topo}\n", [f"property C02 violated by the real code: a later match of a repeatable response does not receive it after the value's Clone panicked once (caught): {(pc.stdout + pc.stderr).strip()[-300:]}"])
+                    rep.violation(rp, f"repeatable response lost after a panicking Clone ({topo}): {(pc.stdout + pc.stderr).strip()[-200:]}")
         # "counted over the original and all clones": the k-th match is well defined also when the matches come from
         # different threads — all schedules of two clones hitting one response chain
         from ..parcheck import ParCheck, par_scenario
